@@ -35,3 +35,12 @@ package push
 //@   requires c != nil
 //@   loop 1 invariant c != nil && rules != nil && forallT(k, string, has(rules, k) ==> rules[k] != nil)
 //@   loop 2 invariant c != nil && rules != nil && rule != nil && forallT(k, string, has(rules, k) ==> rules[k] != nil) && 1 <= i
+
+//@ unit helper_frames frames=on props=C11 nilchecks=on filter=`push\.setHeaderOp$|push\.setMethodOp$|push\.validateHeader$|push\.validateMethod$`
+//@ // helpers that other units call through an empty contract ("frame-empty, promises nothing"): here each is verified
+//@ // against exactly that contract (safety and an empty frame), so that assumption is a proved fact
+//@ use @verif/specs/stdlib.spec:stdlib
+//@ func setHeaderOp
+//@ func setMethodOp
+//@ func validateHeader
+//@ func validateMethod
